@@ -201,41 +201,41 @@ theorem mem_resourceRows_pin {on : Bool} {f pin : Nat → List (Row K)} (hon : o
 
 theorem mem_buildLP_seaweed (hon : i.addSeaweed = true) (hm : m < i.nmonths)
     (hr : r ∈ seaweedRows i m) : r ∈ buildLP i kind := by
-  unfold buildLP; simp only [List.mem_append]
+  unfold buildLP buildLPWith; simp only [List.mem_append]
   left; left; left; left; left; left; left; exact mem_resourceRows hon hm hr
 
 theorem mem_buildLP_crops (hon : i.addOutdoor = true) (hm : m < i.nmonths)
     (hr : r ∈ cropRows i kind m) : r ∈ buildLP i kind := by
-  unfold buildLP; simp only [List.mem_append]
+  unfold buildLP buildLPWith; simp only [List.mem_append]
   left; left; left; left; left; left; right; exact mem_resourceRows hon hm hr
 
 theorem mem_buildLP_stored (hon : i.addStored = true) (hm : m < i.nmonths)
     (hr : r ∈ storedRows i kind m) : r ∈ buildLP i kind := by
-  unfold buildLP; simp only [List.mem_append]
+  unfold buildLP buildLPWith; simp only [List.mem_append]
   left; left; left; left; left; right; exact mem_resourceRows hon hm hr
 
 theorem mem_buildLP_meat (hon : i.addMeat = true) (hm : m < i.nmonths)
     (hr : r ∈ meatRows i m) : r ∈ buildLP i kind := by
-  unfold buildLP; simp only [List.mem_append]
+  unfold buildLP buildLPWith; simp only [List.mem_append]
   left; left; left; left; right; exact mem_resourceRows hon hm hr
 
 theorem mem_buildLP_scp (hon : i.addScp = true) (hm : m < i.nmonths)
     (hr : r ∈ scpRows i m) : r ∈ buildLP i kind := by
-  unfold buildLP; simp only [List.mem_append]
+  unfold buildLP buildLPWith; simp only [List.mem_append]
   left; left; left; right; exact mem_resourceRows hon hm hr
 
 theorem mem_buildLP_cs (hon : i.addCs = true) (hm : m < i.nmonths)
     (hr : r ∈ csRows i m) : r ∈ buildLP i kind := by
-  unfold buildLP; simp only [List.mem_append]
+  unfold buildLP buildLPWith; simp only [List.mem_append]
   left; left; right; exact mem_resourceRows hon hm hr
 
 theorem mem_buildLP_general (hm : m < i.nmonths) (hr : r ∈ generalRows i kind m) :
     r ∈ buildLP i kind := by
-  unfold buildLP; simp only [List.mem_append]
+  unfold buildLP buildLPWith; simp only [List.mem_append]
   left; right; exact List.mem_flatMap.mpr ⟨m, List.mem_range.mpr hm, hr⟩
 
 theorem mem_buildLP_objective (hr : r ∈ objectiveRows i kind) : r ∈ buildLP i kind := by
-  unfold buildLP; simp only [List.mem_append]
+  unfold buildLP buildLPWith; simp only [List.mem_append]
   right; exact hr
 
 /-- the pinned-consumption rows of the feed-maximising round (one lemma for the six resources:
@@ -243,19 +243,19 @@ theorem mem_buildLP_objective (hr : r ∈ objectiveRows i kind) : r ∈ buildLP 
 theorem mem_buildLP_pinned_stored (hon : i.addStored = true) (hm : m < i.nmonths)
     (hr : r ∈ pinnedRows i "Stored_food" (mv .sfHumans m) (at' i.minStored m) m) :
     r ∈ buildLP i .toAnimals := by
-  unfold buildLP; simp only [List.mem_append]
+  unfold buildLP buildLPWith; simp only [List.mem_append]
   left; left; left; left; left; right; exact mem_resourceRows_pin hon rfl hm hr
 
 theorem mem_buildLP_pinned_crops (hon : i.addOutdoor = true) (hm : m < i.nmonths)
     (hr : r ∈ pinnedRows i "Outdoor_crops" (mv .cropHumans m) (at' i.minCrops m) m) :
     r ∈ buildLP i .toAnimals := by
-  unfold buildLP; simp only [List.mem_append]
+  unfold buildLP buildLPWith; simp only [List.mem_append]
   left; left; left; left; left; left; right; exact mem_resourceRows_pin hon rfl hm hr
 
 theorem mem_buildLP_pinned_meat (hon : i.addMeat = true) (hm : m < i.nmonths)
     (hr : r ∈ pinnedRows i "Meat" (mv .meatEaten m) (at' i.minMeat m) m) :
     r ∈ buildLP i .toAnimals := by
-  unfold buildLP; simp only [List.mem_append]
+  unfold buildLP buildLPWith; simp only [List.mem_append]
   left; left; left; left; right; exact mem_resourceRows_pin hon rfl hm hr
 
 end Mem
@@ -1032,7 +1032,7 @@ def meatRowsBefore (i : Inp ℚ) (m : Nat) : List (Row ℚ) :=
 /-- `buildLP` with the meat rows as they were before the repair (everything else identical) -/
 def buildLPBefore (i : Inp ℚ) (kind : Kind) : List (Row ℚ) :=
   resourceRows i kind i.addSeaweed (seaweedRows i)
-      (fun m => pinnedRows i "Seaweed" (Aff.mulr (mv .swHumans m) i.seaweedKcals) (at' i.minSeaweed m) m) ++
+      (fun m => pinnedRowsLower i "Seaweed" (Aff.mulr (mv .swHumans m) i.seaweedKcals) (at' i.minSeaweed m) m) ++
   resourceRows i kind i.addOutdoor (cropRows i kind)
       (fun m => pinnedRows i "Outdoor_crops" (mv .cropHumans m) (at' i.minCrops m) m) ++
   resourceRows i kind i.addStored (storedRows i kind)
@@ -1388,7 +1388,7 @@ structure HumanSpec (i : Inp K) (x : Var → K) : Prop where
   objective : ∀ m, m < i.nmonths → x .objective ≤ x (.mv .consumedKcals m)
 
 theorem feasible_toHumans_iff : Feasible (buildLP i .toHumans) x ↔ HumanSpec i x := by
-  unfold Feasible buildLP
+  unfold Feasible buildLP buildLPWith
   simp only [List.forall_mem_append, resourceRows_toHumans_iff, forall_mem_flatMap_range,
     objectiveRows_toHumans_iff, seaweedRows_iff, cropRows_iff, storedRows_iff, meatRows_iff,
     scpRows_iff, csRows_iff, generalRows_iff]
@@ -1534,6 +1534,18 @@ theorem pinnedRows_iff (nm : String) (expr : Aff K) (minCons : K) :
   simp only [List.forall_mem_cons, List.not_mem_nil, false_imp_iff, implies_true, and_true,
     holds_row_ge, holds_row_le, eval_k]
 
+/-- seaweed after the repair of C16: pinned from below only -/
+def PinLowerSpec (i : Inp K) (v minCons : K) : Prop :=
+  (if i.pop < 1e7 then 0.9999 * minCons else 0.99999 * minCons) ≤ v
+
+theorem pinnedRowsLower_iff (nm : String) (expr : Aff K) (minCons : K) :
+    (∀ r ∈ pinnedRowsLower i nm expr minCons m, r.holds x) ↔
+      PinLowerSpec i (Aff.eval x expr) minCons := by
+  unfold pinnedRowsLower PinLowerSpec
+  simp only [List.forall_mem_singleton, holds_row_ge, eval_k]
+
+theorem PinSpec.lower {v c : K} (h : PinSpec i v c) : PinLowerSpec i v c := h.1
+
 /-- the feed and biofuel share caps of a resilient food (the only intake rows of this round) -/
 def IntakeSpecA (i : Inp K) (x : Var → K) (on : Bool) (ratio : K) (vF vB : VK) (limF limB : K)
     (m : Nat) : Prop :=
@@ -1606,7 +1618,7 @@ theorem objectiveRows_toAnimals_iff :
 structure AnimalSpec (i : Inp K) (x : Var → K) : Prop where
   nonneg : ∀ v, 0 ≤ x v
   seaweed : i.addSeaweed = true → ∀ m, m < i.nmonths →
-    SeaweedSpec i x m ∧ PinSpec i (x (.mv .swHumans m) * i.seaweedKcals) (at' i.minSeaweed m)
+    SeaweedSpec i x m ∧ PinLowerSpec i (x (.mv .swHumans m) * i.seaweedKcals) (at' i.minSeaweed m)
   crops : i.addOutdoor = true → ∀ m, m < i.nmonths →
     CropSpecA i x m ∧ PinSpec i (x (.mv .cropHumans m)) (at' i.minCrops m)
   stored : i.addStored = true → ∀ m, m < i.nmonths →
@@ -1621,11 +1633,11 @@ structure AnimalSpec (i : Inp K) (x : Var → K) : Prop where
   objective : x .objective ≤ feedObjective i x
 
 theorem feasible_toAnimals_iff : Feasible (buildLP i .toAnimals) x ↔ AnimalSpec i x := by
-  unfold Feasible buildLP
+  unfold Feasible buildLP buildLPWith
   simp only [List.forall_mem_append, resourceRows_toAnimals_iff, forall_mem_flatMap_range,
     objectiveRows_toAnimals_iff, seaweedRows_iff, cropRows_toAnimals_iff, storedRows_toAnimals_iff,
-    meatRows_iff, scpRows_iff, csRows_iff, generalRows_toAnimals_iff, pinnedRows_iff, eval_mv,
-    eval_mulr]
+    meatRows_iff, scpRows_iff, csRows_iff, generalRows_toAnimals_iff, pinnedRows_iff,
+    pinnedRowsLower_iff, eval_mv, eval_mulr]
   constructor
   · rintro ⟨⟨⟨⟨⟨⟨⟨⟨h1, h2⟩, h3⟩, h4⟩, h5⟩, h6⟩, h7⟩, h8⟩, h0⟩
     exact ⟨h0, h1, h2, h3, h4, h5, h6, h7, h8⟩
@@ -1656,7 +1668,7 @@ theorem AnimalSpec.of_agree {x x' : Var → K} (h : AnimalSpec i x)
   seaweed := by
     intro hon m hm
     have := h.seaweed hon m hm
-    simp only [SeaweedSpec, seaweedLedger, PinSpec, hmv] at this ⊢
+    simp only [SeaweedSpec, seaweedLedger, PinLowerSpec, hmv] at this ⊢
     exact this
   crops := by
     intro hon m hm
@@ -1690,6 +1702,31 @@ theorem AnimalSpec.of_agree {x x' : Var → K} (h : AnimalSpec i x)
     exact this
   objective := by
     rw [feedObjective_congr hmv]; exact hobj
+
+/-- the programme as it was before the repair of the seaweed pin: today's programme plus the upper
+    rows `Seaweed_Max_Requirement_m` -/
+theorem feasible_toAnimals_before_iff :
+    Feasible (buildLPBeforeSeaweedFix i .toAnimals) x ↔
+      AnimalSpec i x ∧ (i.addSeaweed = true → ∀ m, m < i.nmonths →
+        x (.mv .swHumans m) * i.seaweedKcals ≤
+          (if i.pop < 1e7 then 1.0001 * at' i.minSeaweed m else 1.00001 * at' i.minSeaweed m)) := by
+  unfold Feasible buildLPBeforeSeaweedFix buildLPWith
+  simp only [List.forall_mem_append, resourceRows_toAnimals_iff, forall_mem_flatMap_range,
+    objectiveRows_toAnimals_iff, seaweedRows_iff, cropRows_toAnimals_iff, storedRows_toAnimals_iff,
+    meatRows_iff, scpRows_iff, csRows_iff, generalRows_toAnimals_iff, pinnedRows_iff, eval_mv,
+    eval_mulr]
+  constructor
+  · rintro ⟨⟨⟨⟨⟨⟨⟨⟨h1, h2⟩, h3⟩, h4⟩, h5⟩, h6⟩, h7⟩, h8⟩, h0⟩
+    exact ⟨⟨h0, fun hon m hm => ⟨(h1 hon m hm).1, (h1 hon m hm).2.1⟩, h2, h3, h4, h5, h6, h7, h8⟩,
+      fun hon m hm => (h1 hon m hm).2.2⟩
+  · rintro ⟨⟨h0, h1, h2, h3, h4, h5, h6, h7, h8⟩, hu⟩
+    exact ⟨⟨⟨⟨⟨⟨⟨⟨fun hon m hm => ⟨(h1 hon m hm).1, (h1 hon m hm).2, hu hon m hm⟩, h2⟩, h3⟩, h4⟩,
+      h5⟩, h6⟩, h7⟩, h8⟩, h0⟩
+
+/-- dropping the upper seaweed pin only enlarges the feasible set -/
+theorem feasible_of_feasible_before (h : Feasible (buildLPBeforeSeaweedFix i .toAnimals) x) :
+    Feasible (buildLP i .toAnimals) x :=
+  feasible_toAnimals_iff.mpr (feasible_toAnimals_before_iff.mp h).1
 
 end SpecAnimals
 
